@@ -130,6 +130,11 @@ pub fn take_marks() -> u128 {
     MARKS.with(|m| m.replace(0))
 }
 
+/// Hits of a site on the calling thread since its last flush.
+pub fn site_hit_local(site: u16) -> u32 {
+    LOCAL_HITS.with(|h| h[(site as usize) & (NSITES - 1)].get())
+}
+
 pub fn or_marks(m: u128) {
     MARKS.with(|c| c.set(c.get() | m));
 }
